@@ -7,7 +7,7 @@ EXTENDS MBuffObj
 BytesQuick   == {0, 32, 233}
 TextsQuick   == {<<>>, <<233>>, <<32, 0>>, <<0, 233, 32>>}
 TextsBQuick  == {<<>>, <<233>>, <<0, 32>>}
-IdxQuick     == -5 .. 5
+IdxQuick     == -6 .. 6
 CntQuick     == -2 .. 5
 NCntQuick    == 0 .. 5
 
